@@ -127,7 +127,7 @@ class Registry:
         if d is None:
             return None
         out = {'modifies': tuple(d.get('modifies', ())), 'elem': d.get('elem', 'bytes'), 'lists': dict(d.get('lists', {})),
-               'locals': tuple(d.get('locals', ()))}
+               'locals': tuple(d.get('locals', ())), 'abstract': bool(d.get('abstract', False))}
         for n in ('inv', 'variant'):
             f = d.get(n)
             if f is not None:
